@@ -18,6 +18,11 @@
      (specification: the map) after round 3 is the one after round 2, so every later round starts where round 3 started
      and repeats it (any sequence has this property: which keys are bound is settled after round 1, their values and,
      with the words used up, their towers after round 2; a case that does not pass the check is BADCASE).
+   20 o (SkipListWithCmp with int keys, kinds 4..6 only; not together with 19): Init with ANOTHER comparator, o = 0 ascending,
+     1 descending, 2 composite (k rem 4, k) -- the orders of c02_run_instances_total.  Init discards the state, so the case
+     is a chain of runs of the proved step function, each under the comparator of the last Init (sw_run below walks the
+     operations with Model.Skip.step / s_step and switches the comparator at every op 20; words are consumed across the
+     switch exactly as the scripted source hands them out).
    sub 0 = model output ([PANIC] when the Go code would panic); sub 1 = sorted-map specification output
    (WILD for the tower heights, which the specification does not constrain). *)
 From Coq Require Import List ZArith Bool Arith.
@@ -151,6 +156,53 @@ Fixpoint dec_words (n : nat) (l : list Z) : option (list Z * list Z) :=
   | _, _ => None
   end.
 
+(* ---- op 20: re-Init with another comparator (int keys, SkipListWithCmp) *)
+Definition idz (z : Z) : Z := z.
+Definition sw_op (c a b d : Z) : option (op Z Z) :=
+  if c =? 20 then (if (0 <=? a) && (a <=? 2) then Some OInit else None) else dec_op Z idz c a b d.
+Fixpoint sw_has (fuel : nat) (l : list Z) : bool :=
+  match fuel, l with
+  | S f, c :: _ :: _ :: _ :: r => (c =? 20) || sw_has f r
+  | _, _ => false
+  end.
+Fixpoint sw_ok (fuel : nat) (l : list Z) : bool :=
+  match fuel, l with
+  | _, [] => true
+  | S f, c :: a :: b :: d :: r => match sw_op c a b d with Some _ => sw_ok f r | None => false end
+  | _, _ => false
+  end.
+(* None = the Go code panics *)
+Fixpoint sw_run (fuel : nat) (order : Z) (s : sk Z Z) (l rnd : list Z) : option (list Z) :=
+  match fuel, l with
+  | S f, c :: a :: b :: d :: r =>
+      let order' := if c =? 20 then a else order in
+      match sw_op c a b d with
+      | Some o =>
+          match step Z Z (cmp_of order') 0 WithCmp s o rnd with
+          | Some (s', res, rnd') =>
+              match sw_run f order' s' r rnd' with Some out => Some (enc_res Z idz false res ++ out) | None => None end
+          | None => None
+          end
+      | None => Some []
+      end
+  | _, _ => Some []
+  end.
+Fixpoint sw_spec (fuel : nat) (order : Z) (m : omap Z Z) (l : list Z) : list Z :=
+  match fuel, l with
+  | S f, c :: a :: b :: d :: r =>
+      let order' := if c =? 20 then a else order in
+      match sw_op c a b d with
+      | Some o => let '(m', res) := s_step Z Z (cmp_of order') m o in enc_res Z idz true res ++ sw_spec f order' m' r
+      | None => []
+      end
+  | _, _ => []
+  end.
+Definition sw_case (kind order sub : Z) (ws r' : list Z) : list Z :=
+  if negb ((4 <=? kind) && (kind <=? 6)) || negb (sw_ok (length r') r') then [BADCASE] else
+  if sub =? 0 then match sw_run (length r') order zero r' ws with Some out => out | None => [PANIC] end
+  else if sub =? 1 then sw_spec (length r') order [] r'
+  else [BADCASE].
+
 Definition entry (sub : Z) (args : list Z) : list Z :=
   match args with
   | kind :: nw :: r =>
@@ -159,6 +211,7 @@ Definition entry (sub : Z) (args : list Z) : list Z :=
       if (kind <? 0) || (7 <? kind) || ((kind =? 1) || (kind =? 2)) || (nw <? 0) then [BADCASE] else
       match dec_words (Z.to_nat nw) r with
       | Some (ws, r') =>
+          if sw_has (length r') r' then sw_case kind order sub ws r' else
           match r' with
           | c :: g :: R :: _ :: body =>
               if c =? 19 then
@@ -214,4 +267,16 @@ Example anchor8 : (* SkipListWithCmp: Init in the round, every round starts empt
   = [0;0; 1; 1; 0; 1;2;  0;0; 1; 1; 0; 1;2;  0;0; 1; 1; 0; 1;2;  6; 1].
 Proof. vm_compute. reflexivity. Qed.
 Example anchor9 : entry 0 [0; 0; 19;2;4;0; 1;2;7;0; 18;0;0;0] = [BADCASE].
+Proof. vm_compute. reflexivity. Qed.
+Example anchor10 : (* ascending list re-initialised with the descending order, then with the composite one *)
+  entry 0 [4; 6; 0;0; 0;0; 0;0; 0;0; 0;0; 0;0;  0;0;0;0; 1;1;10;0; 1;2;20;0; 14;0;0;0;  20;1;0;0; 14;0;0;0; 1;1;11;0; 1;3;31;0; 1;2;21;0;
+            14;0;0;0; 17;3;1;0;  20;2;0;0; 1;5;50;0; 1;4;40;0; 14;0;0;0]
+  = [2;1;2;  0;  3;3;2;1;  4;3;31;2;21;  2;4;5].
+Proof. vm_compute. reflexivity. Qed.
+Example anchor10s :
+  entry 1 [4; 0;  0;0;0;0; 1;1;10;0; 1;2;20;0; 14;0;0;0;  20;1;0;0; 14;0;0;0; 1;1;11;0; 1;3;31;0; 1;2;21;0;
+            14;0;0;0; 17;3;1;0;  20;2;0;0; 1;5;50;0; 1;4;40;0; 14;0;0;0]
+  = [2;1;2;  0;  3;3;2;1;  4;3;31;2;21;  2;4;5].
+Proof. vm_compute. reflexivity. Qed.
+Example anchor11 : entry 0 [0; 0; 20;1;0;0] = [BADCASE].
 Proof. vm_compute. reflexivity. Qed.
